@@ -160,9 +160,11 @@ def parent_main(scratch, sendlog):
     def wrap(ex):
         # the stand-in workers of this executor live and die with it: when the real code shuts the executor down, the
         # orchestrator ends them the way loky would (normal exit for kill_workers=False, SIGKILL otherwise)
-        if id(ex) in wrapped:
+        # (marked on the object itself: an id() can be reused by a later executor once an earlier one has been collected,
+        # and an unwrapped executor's shutdown would leave its stand-in workers and queued pickles alive in the orchestrator)
+        if getattr(ex, "_verif_wrapped", False):
             return
-        wrapped.add(id(ex))
+        ex._verif_wrapped = True
         real = ex.shutdown
 
         def shutdown(wait=True, kill_workers=False):
